@@ -321,6 +321,10 @@ theorem c08_inv_decode (P : Nat) (d : Dec) (p : Pkt) (hi : Inv P d) (hp : p.payl
   · rename_i d' heq
     exact finish_inv P d' p.marker (this.1 d' heq)
 
+/-- (F) the decoder struct has exactly two byte-carrying fields (`fragments`, `quantizationTables`,
+both `[][]byte`) — what `retained` sums (regenerated from /repo on every run) -/
+theorem c08_state_fields : CodecMisc.mjpegDecoderSliceFields = 2 := by decide
+
 /-- **C08 bounded memory**: retained bytes < 2^24 (24-bit fragment offset) + one packet + two
 quantisation tables. -/
 theorem c08_retained_le (P : Nat) (d : Dec) (hi : Inv P d) : retained d ≤ 2 ^ 24 + P + 128 := by
